@@ -171,6 +171,13 @@ func (cc *checkCtx) gather() {
 				}
 				cc.obls = append(cc.obls, o)
 			}
+			if c := e.contracts[jobs[i].key]; c != nil {
+				for _, sc := range c.Sites {
+					if sc.Kind == "assume" {
+						cc.assumed = append(cc.assumed, jobs[i].key+": assumed at call "+sc.Callee+": "+sc.Src)
+					}
+				}
+			}
 			if r.VC != nil {
 				for a := range r.VC.usedAssumes {
 					cc.assumed = append(cc.assumed, a)
